@@ -42,7 +42,11 @@ impl<T: Copy, const CAPACITY: usize> StackStack<T, CAPACITY> {
 /// "foo/./bar" => "foo/bar".
 /// These paths can show up due to variable expansion in particular.
 pub fn canonicalize_path(path: &mut String) {
-    assert!(!path.is_empty());
+    if path.is_empty() {
+        // Nothing to simplify; an empty path (e.g. from an undefined $variable)
+        // is reported as a missing/unknown file by the callers.
+        return;
+    }
     let mut components = StackStack::<usize, 60>::new();
 
     // Safety: we will modify the string by removing some ASCII characters in place
